@@ -102,21 +102,25 @@ async fn run_case(rep: &mut Report, args: &Args, case_seed: u64) {
             let (b, seg, end) = (w.args[0], w.args[1], w.args[3]);
             // covering sync: fsync of that segment with offset >= end, or the segment sealed (a later txn_written of the bucket in a newer segment)
             let cover = log.iter().enumerate().skip(wi).find(|(_, e)| (e.name == "fsync" && e.args[0] == b && e.args[1] == seg && e.args[2] >= end) || (e.name == "rollover.done" && e.args[0] == b && e.args[1] > seg));
-            let progress_after = |from: usize| log.iter().skip(from).filter(|e| e.name == "flush_poll" || e.name == "fsync").count();
+            // progress of the writer thread that owns this bucket: its flush polls (one per syncer tick)
+            let wthread = w.thread;
+            let progress_after = |from: usize| log.iter().skip(from).filter(|e| e.name == "flush_poll" && e.thread == wthread).count();
             match cover {
                 Some((ci, _)) => {
                     let p = progress_after(ci + 1);
-                    if p > 50 && !verdict_done {
-                        // still open? (it may have completed between the snapshot and now)
+                    if p > 200 && !verdict_done {
+                        // still open? give the client task a scheduling chance first (the observation
+                        // happens at the client boundary, which needs the task to run)
+                        tokio::time::sleep(Duration::from_millis(200)).await;
                         if open.lock().unwrap().values().any(|o| o.txn_id == txn_id) {
-                            rep.violation("C20:not-completed-after-covering-sync", format!("append invoked at tick {inv} was written (bucket {b} segment {seg} end {end}), a covering sync was observed, {p} further flush_poll/fsync events passed, and it still has not returned after {:?}", age), witness.clone());
+                            rep.violation("C20:not-completed-after-covering-sync", format!("append invoked at tick {inv} was written (bucket {b} segment {seg} end {end}), a covering sync was observed, {p} further flush polls of its writer thread passed, and it still has not returned after {:?}", age), witness.clone());
                             verdict_done = true;
                         }
                     }
                 }
                 None => {
-                    let p = log.iter().skip(wi).filter(|e| e.name == "flush_poll").count();
-                    if p > 200 && !verdict_done && open.lock().unwrap().values().any(|o| o.txn_id == txn_id) {
+                    let p = log.iter().skip(wi).filter(|e| e.name == "flush_poll" && e.thread == wthread).count();
+                    if p > 400 && !verdict_done && open.lock().unwrap().values().any(|o| o.txn_id == txn_id) {
                         rep.violation("C20:no-covering-sync", format!("append invoked at tick {inv} was written (bucket {b} segment {seg} end {end}) but no sync covered it after {p} flush polls ({:?})", age), witness.clone());
                         verdict_done = true;
                     }
@@ -124,8 +128,8 @@ async fn run_case(rep: &mut Report, args: &Args, case_seed: u64) {
             }
         }
         if verdict_done { break; }
-        if t0.elapsed() > Duration::from_secs(120) {
-            rep.inconclusive("wall-clock watchdog (120 s) expired with appends still open and no logical verdict");
+        if t0.elapsed() > Duration::from_secs(60) {
+            rep.inconclusive("wall-clock watchdog (60 s) expired with appends still open and no logical verdict");
             break;
         }
         // keep the log bounded
